@@ -45,6 +45,11 @@ def bundle(H, g, name):
     b["lcc"] = get("local_clustering_coefficient", lambda: pernode(xgi.local_clustering_coefficient(H), frac), [])
     b["tncc"] = get("two_node_clustering_coefficient", lambda: pernode(xgi.two_node_clustering_coefficient(H), frac), [])
     b["dens"] = get("density", lambda: frac(xgi.density(H)), [1, 0])
+    # summaries of the degree / size statistics (ties must not be broken by insertion order)
+    b["summ"] = get("stat summaries", lambda: [int(H.nodes.degree.mode()), int(H.edges.size.mode()), scaled(H.nodes.degree.median()),
+                                               int(H.nodes.degree.max()), int(H.edges.size.min()),
+                                               scaled(H.nodes.degree(order=1).mean()), int(H.nodes.degree(order=1).mode())]
+                    if H.num_edges else [], [-1])
     b["idens"] = get("incidence_density", lambda: frac(xgi.incidence_density(H)), [1, 0])
     b["comps"] = get("connected_components", lambda: [sorted(iN(n) for n in c) for c in xgi.connected_components(H)], [])
     b["max"] = get("maximal", lambda: sorted(iE(e) for e in H.edges.maximal()), [])
@@ -59,6 +64,18 @@ def bundle(H, g, name):
         lab = (lambda i: rd[i]) if rd else (lambda i, ns=list(H.nodes): ns[i])  # no edges: empty index map
         return sorted([iN(lab(i)), int(K[i])] for i in range(len(K)))
     b["degm"] = get("degree_matrix", degvec, [])
+
+    # weighted normalised Laplacian, edge weights attached to the abstract edges: entries by node pair
+    def nlw():
+        if not H.num_edges or any(len(H._node[n]) == 0 for n in H.nodes) or any(len(m) == 0 for m in H._edge.values()):
+            return []
+        K = H.copy()
+        for e in K.edges:
+            K.edges[e]["weight"] = 1 + (iE(e) % 3)
+        L, rd = xgi.normalized_hypergraph_laplacian(K, weighted=True, sparse=False, index=True)
+        L = L if hasattr(L, "shape") and not hasattr(L, "toarray") else L.toarray()
+        return sorted([iN(rd[i]), iN(rd[j_]), scaled(L[i][j_])] for i in range(len(rd)) for j_ in range(len(rd)))
+    b["nlapw"] = get("normalized_hypergraph_laplacian(weighted)", nlw, [[-1, -1, 0]])
     # simpliciality (defined without repeated edges; orderable labels): compared across realisations
     norep = len({frozenset(m) for m in H._edge.values()}) == H.num_edges
     b["simp"] = [scaled(get(f, lambda f=f: getattr(xgi, f)(H), float("nan"))) if norep else NANI
